@@ -80,4 +80,140 @@ static inline uint16_t cxx_bswap16(uint16_t v) { return (uint16_t)((v >> 8) | (v
   static inline void cxx_reverse_##S(T *first, T *last) \
   { while (first != last && first != --last) { T __t = *first; *first = *last; *last = __t; ++first; } }
 
+
+/* ------------------------------------------------------------------ system records */
+typedef struct cxx_in_addr { uint32_t s_addr; } cxx_in_addr;
+typedef struct cxx_in6_addr { uint8_t s6_addr[16]; } cxx_in6_addr;
+typedef struct cxx_timeval { int64_t tv_sec; int64_t tv_usec; } cxx_timeval;
+
+#ifndef CXX_NATIVE
+void *malloc(__CPROVER_size_t);
+static inline void *cxx_alloc(uint64_t bytes)
+{
+  void *p = malloc(bytes ? bytes : 1);
+  __CPROVER_assume(p != 0);   /* allocator failure (std::bad_alloc) is assumed not to occur */
+  return p;
+}
+#else
+static inline void *cxx_alloc(uint64_t bytes) { void *p = malloc(bytes ? bytes : 1); if (!p) abort(); return p; }
+#endif
+
+/* inet_ntop model: AF_INET (2) / AF_INET6 (10) with a large-enough buffer never fails; the produced text is an
+   uninterpreted, NUL-terminated function of (af, address bytes), recorded in ghost state for the contracts. */
+int      __g_ntop_calls;
+int      __g_ntop_af;
+uint8_t  __g_ntop_bytes[16];
+#ifndef CXX_NATIVE
+static inline const char *cxx_inet_ntop(int af, const void *src, char *dst, uint32_t size)
+{
+  CXX_ASSERT(af == 2 || af == 10, "inet_ntop: known address family");
+  CXX_ASSERT(size >= (af == 2 ? 16u : 46u), "inet_ntop: buffer large enough (no ENOSPC)");
+  __g_ntop_af = af;
+  for (int __q = 0; __q < 16; ++__q) __g_ntop_bytes[__q] = (__q < (af == 2 ? 4 : 16)) ? ((const uint8_t *)src)[__q] : 0;
+  __g_ntop_calls++;
+  uint32_t cap = (af == 2 ? 16u : 46u);
+  __CPROVER_havoc_slice(dst, cap);          /* uninterpreted text ... */
+  uint32_t len;
+  __CPROVER_assume(len >= 2 && len < cap);
+  __CPROVER_assume(dst[0] != 0);
+  dst[len] = 0;                             /* ... that is NUL-terminated inside the buffer */
+  return dst;
+}
+#endif
+
+static inline uint64_t cxx_strlen(const char *s) { uint64_t n = 0; while (s[n] != 0) ++n; return n; }
+static inline int cxx_isdigit(int c) { return c >= '0' && c <= '9'; }
+static inline int cxx_isxdigit(int c) { return (c >= '0' && c <= '9') || (c >= 'a' && c <= 'f') || (c >= 'A' && c <= 'F'); }
+static inline int cxx_isspace(int c) { return c == ' ' || (c >= 9 && c <= 13); }
+static inline int cxx_isalpha(int c) { return (c >= 'a' && c <= 'z') || (c >= 'A' && c <= 'Z'); }
+static inline int cxx_isalnum(int c) { return cxx_isalpha(c) || cxx_isdigit(c); }
+static inline int cxx_iscntrl(int c) { return (c >= 0 && c < 32) || c == 127; }   /* "C" locale */
+static inline int cxx_isprint(int c) { return c >= 32 && c < 127; }
+static inline int cxx_tolower(int c) { return (c >= 'A' && c <= 'Z') ? c + 32 : c; }
+static inline int cxx_toupper(int c) { return (c >= 'a' && c <= 'z') ? c - 32 : c; }
+
+/* ------------------------------------------------------------------ std::vector<T> value model
+   {p,n,cap}: p owns n elements (cap is unobservable and unused).  Copies are deep (vec_S_clone), moves are struct
+   copies.  Storage is never freed.  Each function also carries a contract so that unbounded proofs can use
+   --replace-call-with-contract instead of the looping body. */
+#define CXX_VEC(T, S) \
+  static inline void vec_##S##_resize(vec_##S *v, uint64_t n) \
+  __CPROVER_requires(__CPROVER_rw_ok(v, sizeof(*v)) && n <= 0x0FFFFFFFFFFFFFFFul / sizeof(T)) \
+  __CPROVER_assigns(v->p, v->n) \
+  __CPROVER_ensures(v->n == n && (n == 0 || __CPROVER_is_fresh(v->p, n * sizeof(T)))) \
+  { T *np = (T *)cxx_alloc(n * sizeof(T)); \
+    for (uint64_t __k = 0; __k < n; ++__k) { if (__k < v->n) np[__k] = v->p[__k]; else { T z = {0}; np[__k] = z; } } \
+    v->p = np; v->n = n; } \
+  static inline void vec_##S##_resize_fill(vec_##S *v, uint64_t n, T val) \
+  { T *np = (T *)cxx_alloc(n * sizeof(T)); \
+    for (uint64_t __k = 0; __k < n; ++__k) { if (__k < v->n) np[__k] = v->p[__k]; else np[__k] = val; } \
+    v->p = np; v->n = n; } \
+  static inline void vec_##S##_clear(vec_##S *v) { v->n = 0; } \
+  static inline void vec_##S##_push_back(vec_##S *v, T val) \
+  { T *np = (T *)cxx_alloc((v->n + 1) * sizeof(T)); \
+    for (uint64_t __k = 0; __k < v->n; ++__k) np[__k] = v->p[__k]; \
+    np[v->n] = val; v->p = np; v->n = v->n + 1; } \
+  static inline void vec_##S##_pop_back(vec_##S *v) { CXX_ASSERT(v->n > 0, "pop_back on empty vector"); v->n--; } \
+  static inline void vec_##S##_pop_front(vec_##S *v) { CXX_ASSERT(v->n > 0, "pop_front on empty deque"); v->p++; v->n--; } \
+  static inline vec_##S vec_##S##_clone(vec_##S o) \
+  { vec_##S r; r.p = (T *)cxx_alloc(o.n * sizeof(T)); r.n = o.n; r.cap = o.n; \
+    for (uint64_t __k = 0; __k < o.n; ++__k) r.p[__k] = o.p[__k]; return r; } \
+  static inline vec_##S vec_##S##_from_range(const T *first, const T *last) \
+  { vec_##S r; uint64_t n = (uint64_t)(last - first); r.p = (T *)cxx_alloc(n * sizeof(T)); r.n = n; r.cap = n; \
+    for (uint64_t __k = 0; __k < n; ++__k) r.p[__k] = first[__k]; return r; } \
+  static inline vec_##S vec_##S##_filled(uint64_t n, T val) \
+  { vec_##S r; r.p = (T *)cxx_alloc(n * sizeof(T)); r.n = n; r.cap = n; \
+    for (uint64_t __k = 0; __k < n; ++__k) r.p[__k] = val; return r; } \
+  static inline void vec_##S##_assign_range(vec_##S *v, const T *first, const T *last) { *v = vec_##S##_from_range(first, last); } \
+  static inline void vec_##S##_assign_fill(vec_##S *v, uint64_t n, T val) { *v = vec_##S##_filled(n, val); } \
+  static inline T *vec_##S##_insert_range(vec_##S *v, T *pos, const T *first, const T *last) \
+  { uint64_t at = (uint64_t)(pos - v->p); uint64_t m = (uint64_t)(last - first); \
+    CXX_ASSERT(at <= v->n, "insert position inside vector"); \
+    T *np = (T *)cxx_alloc((v->n + m) * sizeof(T)); \
+    for (uint64_t __k = 0; __k < at; ++__k) np[__k] = v->p[__k]; \
+    for (uint64_t __k = 0; __k < m; ++__k) np[at + __k] = first[__k]; \
+    for (uint64_t __k = at; __k < v->n; ++__k) np[m + __k] = v->p[__k]; \
+    v->p = np; v->n += m; return np + at; } \
+  static inline T *vec_##S##_erase_range(vec_##S *v, T *first, T *last) \
+  { uint64_t a = (uint64_t)(first - v->p); uint64_t b = (uint64_t)(last - v->p); \
+    CXX_ASSERT(a <= b && b <= v->n, "erase range inside vector"); \
+    for (uint64_t __k = b; __k < v->n; ++__k) v->p[a + (__k - b)] = v->p[__k]; \
+    v->n -= (b - a); return v->p + a; }
+
+/* ------------------------------------------------------------------ std::string value model (same shape as vector<char>;
+   p[n] is NOT required to be a NUL: c_str() users must go through str_cstr) */
+#define CXX_STR() \
+  static inline str str_from_n(const char *s, uint64_t n) \
+  { str r; r.p = (char *)cxx_alloc(n + 1); r.n = n; r.cap = n; \
+    for (uint64_t __k = 0; __k < n; ++__k) r.p[__k] = s[__k]; r.p[n] = 0; return r; } \
+  static inline str str_from_cstr(const char *s) { return str_from_n(s, cxx_strlen(s)); } \
+  static inline str str_clone(str o) { return str_from_n(o.p, o.n); } \
+  static inline str str_filled(uint64_t n, char c) \
+  { str r; r.p = (char *)cxx_alloc(n + 1); r.n = n; r.cap = n; for (uint64_t __k = 0; __k < n; ++__k) r.p[__k] = c; r.p[n] = 0; return r; } \
+  static inline void str_clear(str *v) { v->n = 0; } \
+  static inline void str_append_n(str *v, const char *s, uint64_t m) \
+  { char *np = (char *)cxx_alloc(v->n + m + 1); \
+    for (uint64_t __k = 0; __k < v->n; ++__k) np[__k] = v->p[__k]; \
+    for (uint64_t __k = 0; __k < m; ++__k) np[v->n + __k] = s[__k]; \
+    np[v->n + m] = 0; v->p = np; v->n += m; } \
+  static inline void str_push_back(str *v, char c) { str_append_n(v, &c, 1); } \
+  static inline void str_append(str *v, str o) { str_append_n(v, o.p, o.n); } \
+  static inline void str_append_cstr(str *v, const char *s) { str_append_n(v, s, cxx_strlen(s)); } \
+  static inline void str_append_fill(str *v, uint64_t m, char c) { for (uint64_t __k = 0; __k < m; ++__k) str_push_back(v, c); } \
+  static inline void str_pop_back(str *v) { CXX_ASSERT(v->n > 0, "pop_back on empty string"); v->n--; } \
+  static inline void str_resize(str *v, uint64_t n) \
+  { char *np = (char *)cxx_alloc(n + 1); for (uint64_t __k = 0; __k < n; ++__k) np[__k] = (__k < v->n) ? v->p[__k] : 0; \
+    np[n] = 0; v->p = np; v->n = n; } \
+  static inline _Bool str_eq_cstr(str a, const char *s) \
+  { uint64_t m = cxx_strlen(s); if (m != a.n) return 0; for (uint64_t __k = 0; __k < m; ++__k) if (a.p[__k] != s[__k]) return 0; return 1; } \
+  static inline str str_substr(str a, uint64_t pos, uint64_t cnt) \
+  { if (pos > a.n) { __exc = EXC_out_of_range; str z = {0}; return z; } \
+    uint64_t m = a.n - pos; if (cnt < m) m = cnt; return str_from_n(a.p + pos, m); } \
+  static inline strview strview_from_cstr(const char *s) { strview r; r.p = (char *)s; r.n = cxx_strlen(s); return r; } \
+  static inline strview strview_substr(strview a, uint64_t pos, uint64_t cnt) \
+  { CXX_ASSERT(pos <= a.n, "string_view::substr position (throws out_of_range otherwise)"); \
+    strview r; uint64_t m = a.n - pos; if (cnt < m) m = cnt; r.p = a.p + pos; r.n = m; return r; }
+static inline uint64_t cxx_find_char(const char *p, uint64_t n, char c, uint64_t from)
+{ for (uint64_t __k = from; __k < n; ++__k) if (p[__k] == c) return __k; return (uint64_t)-1; }
+
 #endif
